@@ -16,10 +16,29 @@
     §3 zero            `ctfTRu_zero_only_from_simplify`, `ctfTRu_zero_of_simplify`, `ctf_zero_sound_partial`
     §4 composition     `ctfTRu_event_is_simplified`, `sigmaTR_uses_usable_domain`, `transportFactors_all`,
                        `ctfTRu_answer_shape`
-  OPEN (stated below): ctf_no_internal_error, ctfTRu_sound, ctfTR_sound.
+    §5 no other error  `ctfTRu_no_internal_error_partial` (Algorithm 2 never raises outside the crash class), its parts
+                       `simplify_no_error_outside_class` / `simplify_no_error_outside_risk`, `line2_total`,
+                       `sigmaTRDomain_no_error`, `transportFactors_no_error`; `sigmaTR_sound`
+  OPEN (stated below): ctf_no_internal_error for Algorithm 3, ctfTRu_sound, ctfTR_sound.
+
+  Reading guide for §5 (definitions in Y0/Lemmas/CtfTrSimplify.lean, CtfTrLine2.lean, CtfTrSigma.lean, CtfTrTotal.lean):
+    Reflexive e      := e.any fun p => p.1.ivs.any (·.name == p.1.name)          some event variable is `Y_y`
+    HasNone e        := e.any (·.2.isNone)                                        some event variable has no value
+    CrashClassU e    := Reflexive e && HasNone e                                  harness class crash:simplify-typeerror
+    SimplifyRisk e   := e.any fun p => selfIntervened p.1 && e.any fun q => q.2.isNone && (q.1.name == p.1.name)
+                                                                                  `Y_y` next to a VALUELESS variable named `Y`
+    EventVarsPlain e := ∀ p ∈ e, p.1.star = none ∧ p.1.isIv = false ∧ p.1.ivs.Nodup
+                        (what `_event_from_counterfactuals` produces; subscripts are a frozenset)
+    DomainsAgree target ds := ∀ d ∈ ds,
+        (∀ a b, target.BiEdge a b → a ∉ d.policy → b ∉ d.policy → d.graph.BiEdge a b) ∧
+        (∀ a b, d.graph.BiEdge a b → isTnode a = false)
+    EventOK g ev     := ∀ p ∈ ev, p.1.name ∈ g.nodes ∧ (p.1.isCf = true ∨ (p.1.isIv = false ∧ p.1.star = none))
+    DomainOK district d : d.graph.WF, district ⊆ regular d.graph, d.topo lists d.graph.nodes, d.pop is a Probability,
+                        no bidirected edge at a selection node, district bidirected-connected inside itself in d.graph
 -/
 import Y0.Model.CtfTr
 import Y0.Props.C19
+import Y0.Lemmas.CtfTrTotal
 
 namespace Y0
 namespace CtfTr
@@ -222,6 +241,8 @@ theorem ctfTR_trichotomy (derive : MG Name → Event → Event → Except Err Ev
 --   FALSE of the current code: SIMPLIFY raises TypeError on events with a valueless or self-intervened variable, and
 --   Algorithm 3 raises ValueError / KeyError from the event it derives itself and from its final checks (known findings
 --   crash:simplify-typeerror, crash:ctfTR-derived-event-rejected, crash:ctfTR-final-check; witnesses in the corpus).
+--   PROVED for Algorithm 2 outside the crash class and for selection diagrams that agree with the target graph:
+--   §5 `ctfTRu_no_internal_error_partial`.  Still open: Algorithm 3 (`derive` / `line4` are parameters of the model).
 
 /-! ## 3. Zero only for impossible events -/
 
@@ -380,6 +401,101 @@ theorem transportFactors_all (ds : List Domain) : ∀ (fs : List Event) (qs : Li
 --   computed from the domain's distribution by IDENTIFY (C17 `tian_sound`).  The exact functional-SCM oracle decides
 --   the clause on every run.
 
+/-! ## 5. No other error outside the known crash classes -/
+
+open Trso (isTnode nsort) in
+/-- **SIMPLIFY raises only inside the crash class** `reflexive ∧ has_none` (harness key `crash:simplify-typeerror`):
+on a graph built by `from_edges`, for event variables that are nodes, of which the plain ones carry no star, with
+duplicate-free subscript lists. -/
+theorem simplify_no_error_outside_class (g : MG Name) (hg : g.WF) (e : Event)
+    (hnodes : ∀ p ∈ e, p.1.name ∈ g.nodes) (hvalid : ∀ p ∈ e, validEventVar p.1 = true)
+    (hnd : ∀ p ∈ e, p.1.ivs.Nodup) (hcls : CrashClassU e = false) : ∃ r, simplify g e = .ok r :=
+  simplify_total_of_class g hg e hnodes hvalid hnd hcls
+
+/-- the same for the smaller class on which the model of SIMPLIFY actually raises: a self-intervened `Y_y` together with
+a VALUELESS variable named `Y` (`Y_y` itself, the plain `Y`, any `Y_x`) -/
+theorem simplify_no_error_outside_risk (g : MG Name) (hg : g.WF) (e : Event)
+    (hnodes : ∀ p ∈ e, p.1.name ∈ g.nodes) (hvalid : ∀ p ∈ e, validEventVar p.1 = true)
+    (hnd : ∀ p ∈ e, p.1.ivs.Nodup) (hrisk : SimplifyRisk e = false) : ∃ r, simplify g e = .ok r :=
+  simplify_total_of_risk g hg e hnodes hvalid hnd hrisk
+
+/-- `SimplifyRisk` is inside the harness's class -/
+theorem simplify_risk_in_class (e : Event) (h : SimplifyRisk e = true) : CrashClassU e = true :=
+  simplifyRisk_crashClass e h
+
+/-- **Line 2 of Algorithm 2 never raises** on a well-formed graph without self-loops, for an event whose variables are
+named after nodes and are counterfactual variables or unstarred plain variables; every ctf-factor it returns is
+non-empty, over nodes of the graph, and bidirected-connected inside its own vertex set. -/
+theorem line2_total (g : MG Name) (hg : g.WF) (hloop : ∀ v, ¬ g.DiEdge v v) (ev : Event) (hev : EventOK g ev) :
+    ∃ anc factors, line2 g ev = .ok (anc, factors) ∧
+      ∀ f ∈ factors, f ≠ [] ∧ (∀ p ∈ f, p.1.name ∈ g.nodes) ∧
+        (∀ a ∈ f, ∀ b ∈ f, (g.subgraph (dedup' (f.map (·.1.name)))).SameDistrict a.1.name b.1.name) :=
+  line2_ok g hg hloop ev hev
+
+/-- **One domain of Algorithm 4 never raises** under `DomainOK`: in particular the `ValueError` "the vertices in an
+input district are part of more than one district in a domain graph" needs a district that is NOT bidirected-connected
+in the domain graph, and IDENTIFY's own checks (`tian_checks`) hold. -/
+theorem sigmaTRDomain_no_error (district : List Name) (d : Domain) (hne : district ≠ []) (h : DomainOK district d) :
+    ∃ r, sigmaTRDomain district d = .ok r :=
+  sigmaTRDomain_total district d hne h
+
+/-- **The transport loop never raises** when every factor is non-empty, inside the regular nodes of every domain graph,
+and every usable domain is `DomainOK` for it. -/
+theorem transportFactors_no_error (ds : List Domain) (fs : List Event)
+    (h : ∀ f ∈ fs, f ≠ [] ∧ ∀ d ∈ ds, (∀ v ∈ dedup' (f.map (·.1.name)), v ∈ regular d.graph) ∧
+        (domainUsable (dedup' (f.map (·.1.name))) d = true → DomainOK (dedup' (f.map (·.1.name))) d)) :
+    ∃ r, transportFactors ds fs = .ok r :=
+  transportFactors_total ds fs h
+
+/-- **C09, "never another error", Algorithm 2.**  An input accepted by the validator, on graphs built by `from_edges`,
+is answered or refused — `ctfTRu` returns no error at all — provided the event is outside the known crash class
+`reflexive ∧ has_none`, its variables are what `_event_from_counterfactuals` builds (`EventVarsPlain`), and the selection
+diagrams agree with the target graph on the bidirected edges between policy-free variables and have no bidirected edge
+at a selection node (`DomainsAgree`; the validator does not compare a domain graph with the target graph unless it is
+the target domain's own, and Algorithm 4 raises `ValueError` otherwise: witness `w1` below, confirmed on the Python). -/
+theorem ctfTRu_no_internal_error_partial (target : MG Name) (ds : List Domain) (e : Event)
+    (hv : validateU target ds e = .ok ()) (hwf : target.WF) (hds : ∀ d ∈ ds, d.graph.WF)
+    (hcls : CrashClassU e = false) (hplain : EventVarsPlain e) (hdom : DomainsAgree target ds) :
+    ∀ err, ctfTRu target ds e ≠ .error err :=
+  ctfTRu_total_of_class target ds e hv hwf hds hcls hplain hdom
+
+/-- the same outside the smaller class `SimplifyRisk` -/
+theorem ctfTRu_no_internal_error_risk (target : MG Name) (ds : List Domain) (e : Event)
+    (hv : validateU target ds e = .ok ()) (hwf : target.WF) (hds : ∀ d ∈ ds, d.graph.WF)
+    (hrisk : SimplifyRisk e = false) (hplain : EventVarsPlain e) (hdom : DomainsAgree target ds) :
+    ∀ err, ctfTRu target ds e ≠ .error err :=
+  ctfTRu_total_of_risk target ds e hv hwf hds hrisk hplain hdom
+
+/-- with the trichotomy: such an input is answered or refused -/
+theorem ctfTRu_answers_or_fails (target : MG Name) (ds : List Domain) (e : Event)
+    (hv : validateU target ds e = .ok ()) (hwf : target.WF) (hds : ∀ d ∈ ds, d.graph.WF)
+    (hcls : CrashClassU e = false) (hplain : EventVarsPlain e) (hdom : DomainsAgree target ds) :
+    (∃ a, ctfTRu target ds e = .ok (some a)) ∨ ctfTRu target ds e = .ok none := by
+  rcases ctfTRu_trichotomy target ds e hv with h | h | ⟨err, herr, _⟩
+  · exact Or.inl h
+  · exact Or.inr h
+  · exact absurd herr (ctfTRu_no_internal_error_partial target ds e hv hwf hds hcls hplain hdom err)
+
+open Trso (isTnode nsort) in
+open TianSpec in
+/-- **Algorithm 4 is sound** (composition of `sigmaTR_uses_usable_domain`, C17 `cfactor_sound` and `tian_sound`): the
+expression returned for a district comes from a usable domain `d`, and in every positive semi-Markovian model compatible
+with that domain's selection diagram in which the domain's distribution `d.pop` denotes `Q[V]` (`V` the regular nodes in
+the order `d.topo`), it denotes `Q[district]`. -/
+theorem sigmaTR_sound (district : List Name) (ds : List Domain) (e : Expr)
+    (h : sigmaTR district ds = .ok (some e)) (hne : district ≠ []) :
+    ∃ d ∈ ds, domainUsable district d = true ∧
+      ∀ (M : Scm), M.Compatible d.graph → d.graph.WF → d.graph.Ranked → d.topo.Nodup → TopoOrdered d.graph d.topo →
+        (∀ v ∈ d.graph.nodes, v ∈ d.topo) → (∀ v ∈ district, v ∈ regular d.graph) →
+        (∀ a b, d.graph.BiEdge a b → isTnode a = false) →
+        ∀ σ' : Val, ProbShape d.graph.nodes d.pop (d.topo.filter (· ∈ regular d.graph)) →
+          (∀ σ, den (M.env d.graph) σ' d.pop σ = M.Q (d.topo.filter (· ∈ regular d.graph)) σ) →
+          ∀ σ, den (M.env d.graph) σ' e σ = M.Q (nsort district) σ := by
+  obtain ⟨d, hd, hus, hdom⟩ := sigmaTR_uses_usable_domain district ds e h
+  exact ⟨d, hd, hus, fun M hM hG hrank htnd hord hcov hreg biT σ' hshape hpop =>
+    sigmaTRDomain_sound M district d hM hG hrank htnd hord hcov hne hreg biT σ' hshape hpop e hdom⟩
+
+
 /-! ## Non-vacuity: Example 4.2 of Correa et al. (figure 2a; domain 1 with policy σ_X and a selection node on Z,
 domain 2 with a selection node on W).  Z=3 X=1 Y=2 W=0 -/
 
@@ -407,6 +523,73 @@ example : validateU fig2a [fig2dom1, fig2dom2] ex42 = .ok () := by decide +kerne
 example : isAnswerWithEvent (ctfTRu fig2a [fig2dom1, fig2dom2] ex42) = true := by decide +kernel
 example : isZeroAnswer (ctfTRu fig2a [fig2dom1, fig2dom2] exImpossible) = true := by decide +kernel
 example : ∀ p ∈ exImpossible, selfIntervened p.1 = false := by decide
+
+/-! ### §5: the hypotheses are satisfiable, and what happens without them -/
+
+example : CrashClassU ex42 = false := by decide
+example : EventVarsPlain ex42 := by unfold EventVarsPlain; decide
+theorem fig2_domainsAgree : DomainsAgree fig2a [fig2dom1, fig2dom2] := by
+  intro d hd
+  simp only [List.mem_cons, List.not_mem_nil, or_false] at hd
+  rcases hd with rfl | rfl
+  · refine ⟨fun a b hab ha hb => ?_, fun a b hab => ?_⟩
+    · rw [fig2a, MG.biEdge_fromEdges] at hab
+      rw [fig2dom1, MG.biEdge_fromEdges]
+      simp only [fig2dom1, List.mem_cons, List.not_mem_nil, or_false, Prod.mk.injEq] at hab ha hb ⊢
+      rcases hab with (⟨rfl, rfl⟩ | ⟨rfl, rfl⟩) | (⟨rfl, rfl⟩ | ⟨rfl, rfl⟩) <;> simp_all
+    · rw [fig2dom1, MG.biEdge_fromEdges] at hab
+      simp only [List.mem_cons, List.not_mem_nil, or_false, Prod.mk.injEq] at hab
+      rcases hab with ⟨rfl, _⟩ | ⟨_, rfl⟩ <;> decide
+  · refine ⟨fun a b hab _ _ => ?_, fun a b hab => ?_⟩
+    · rw [fig2a, MG.biEdge_fromEdges] at hab
+      rw [fig2dom2, MG.biEdge_fromEdges]
+      exact hab
+    · rw [fig2dom2, MG.biEdge_fromEdges] at hab
+      simp only [List.mem_cons, List.not_mem_nil, or_false, Prod.mk.injEq] at hab
+      rcases hab with (⟨rfl, _⟩ | ⟨rfl, _⟩) | (⟨_, rfl⟩ | ⟨_, rfl⟩) <;> decide
+
+/-- the theorem applies to Example 4.2 -/
+example : ∀ err, ctfTRu fig2a [fig2dom1, fig2dom2] ex42 ≠ .error err :=
+  ctfTRu_no_internal_error_partial _ _ _ (by decide +kernel) (MG.wf_fromEdges _ _ _)
+    (by intro d hd
+        simp only [List.mem_cons, List.not_mem_nil, or_false] at hd
+        rcases hd with rfl | rfl <;> exact MG.wf_fromEdges _ _ _)
+    (by decide) (by unfold EventVarsPlain; decide) fig2_domainsAgree
+
+def isInternal (k : String) : Except Err (Option Answer) → Bool
+  | .error (.internal k') => k == k'
+  | _ => false
+
+/-- **witness `w1` (a crash class outside the harness's generator, confirmed on the Python).**  Target `X ↔ Y`; the only
+domain has the same variables but NO bidirected edge, its own population tag, no policy, no selection node.  The
+validator accepts (it compares a domain graph with the target graph only for the target domain itself), and Algorithm 4
+raises `ValueError` ("the vertices in an input district are part of more than one district in a domain graph") for
+`P(X = x, Y = y)`. -/
+def w1Target : MG Name := MG.fromEdges [] [] [(1, 2)]
+def w1Dom : Domain :=
+  { graph := MG.fromEdges [1, 2] [] [], topo := [1, 2], policy := [],
+    pop := .prob (some (Var.plain 1001)) (TrDsl.plainVars [1, 2]) [] }
+def w1Event : Event := [({ name := 1 }, some ⟨1, false⟩), ({ name := 2 }, some ⟨2, false⟩)]
+
+example : validateU w1Target [w1Dom] w1Event = .ok () := by decide +kernel
+example : CrashClassU w1Event = false := by decide
+example : EventVarsPlain w1Event := by unfold EventVarsPlain; decide
+example : isInternal "ValueError" (ctfTRu w1Target [w1Dom] w1Event) = true := by decide +kernel
+
+/-- `reflexive ∧ has_none` is wider than the class on which SIMPLIFY raises: `Y_y = y` with a valueless `X` is in the
+harness's class, outside `SimplifyRisk`, and answered; `Y_y = y` with a valueless `Y` raises (both as the Python). -/
+def w3Graph : MG Name := MG.fromEdges [1, 2] [] []
+def w3Dom : Domain :=
+  { graph := MG.fromEdges [1, 2] [] [], topo := [1, 2], policy := [],
+    pop := .prob (some (Var.plain 1001)) (TrDsl.plainVars [1, 2]) [] }
+def w3Event : Event := [({ name := 2, ivs := [⟨2, false⟩] }, some ⟨2, false⟩), ({ name := 1 }, none)]
+def w4Event : Event := [({ name := 2, ivs := [⟨2, false⟩] }, some ⟨2, false⟩), ({ name := 2 }, none)]
+
+example : CrashClassU w3Event = true ∧ SimplifyRisk w3Event = false := by decide
+example : isAnswerWithEvent (ctfTRu w3Graph [w3Dom] w3Event) = true := by decide +kernel
+example : SimplifyRisk w4Event = true := by decide
+example : validateU w3Graph [w3Dom] w4Event = .ok () := by decide +kernel
+example : isInternal "TypeError" (ctfTRu w3Graph [w3Dom] w4Event) = true := by decide +kernel
 
 end CtfTr
 end Y0
